@@ -167,8 +167,15 @@ func (rn *runner) connTie() {
 			rw := &recRW{Reader: strings.NewReader(sc.req), failNext: !sc.writeOk}
 			connCtx := context.WithValue(context.Background(), ctxKeyT{}, round)
 			var herr error
-			if !lib.WithDeadline(90*time.Second, func() { herr = pw.server.HandleReadWriter(connCtx, 0, rw) }) {
+			var hpanicked bool
+			if !lib.WithDeadline(90*time.Second, func() {
+				herr, hpanicked, _ = lib.Try(func() error { return pw.server.HandleReadWriter(connCtx, 0, rw) })
+			}) {
 				res.Violate(lib.Violation{Sig: "server-hangs-in-HandleReadWriter", What: "HandleReadWriter does not return for " + sc.req + " when the handler writes to its connection", Replay: map[string]any{"scenario": sc.name, "request": sc.req}})
+				return
+			}
+			if hpanicked {
+				res.Violate(lib.Violation{Sig: "server-panics", What: "HandleReadWriter panicked for " + sc.req + " (" + sc.name + "): " + herr.Error(), Replay: map[string]any{"scenario": sc.name, "request": sc.req}})
 				return
 			}
 			var errs []error
@@ -202,6 +209,13 @@ func (rn *runner) connTie() {
 					What:   "HandleReadWriter(" + sc.req + "), handler starts a goroutine that writes to ConnFromContext(ctx): the wire carries " + gotWire + " — a pushed message before (or instead of) the response to the request",
 					Replay: replay})
 			}
+			// … and when the response could not be written, nothing else may follow in its place (the connection
+			// is unusable: HandleReadWriter says so to its caller, and every later write of a handler is refused)
+			if sc.hasResp && !sc.writeOk && gotWire != "" {
+				res.Violate(lib.Violation{Sig: "handler-message-written-in-place-of-failed-response",
+					What:   "HandleReadWriter(" + sc.req + ") with a writer that fails on the response: the handler's goroutine still gets its messages on the wire (" + gotWire + ") — the client reads a pushed message where the response to its request belongs",
+					Replay: replay})
+			}
 			// accessors
 			pw.mu.Lock()
 			conn := pw.conns[len(pw.conns)-1]
@@ -232,7 +246,17 @@ func (rn *runner) connTie() {
 		res.Mismatch(lib.Mismatch{Sig: "conn: ConnFromContext rejects a Conn set by a transport", Input: "ConnKey -> foreign Conn"})
 	}
 	res.Compared(3)
-	out, _, err := pw.server.HandleReader(context.Background(), strings.NewReader(`{"jsonrpc":"2.0","method":"sub","id":1}`))
+	var out []byte
+	err, hrPanicked, _ := lib.Try(func() error {
+		o, _, e := pw.server.HandleReader(context.Background(), strings.NewReader(`{"jsonrpc":"2.0","method":"sub","id":1}`))
+		out = o
+		return e
+	})
+	if hrPanicked {
+		res.Violate(lib.Violation{Sig: "server-panics", What: "[conn tie] HandleReader panicked on a request whose handler asks for its connection: " + err.Error(),
+			Replay: map[string]any{"input_text": `{"jsonrpc":"2.0","method":"sub","id":1}`}})
+		return
+	}
 	<-pw.pushErrs
 	if err != nil || !bytes.Contains(out, []byte("no-connection")) {
 		res.Mismatch(lib.Mismatch{Sig: "conn: a handler under HandleReader sees a connection", Input: "HandleReader", Impl: string(out)})
